@@ -82,6 +82,11 @@ def pair_st(draw, tier):
     bottom = draw(G.mutate_ace(top, platform, kmax=4, groups=True, empty_sets=True))
     if draw(st.integers(0, 9)) == 0:
         top, bottom = bottom, top
+    # usual Cisco order 'log <other options>': the log keyword in front of the flag tokens
+    for rec in (top, bottom):
+        if rec.get("flags") and draw(st.sampled_from([True, False, False])):
+            rec["logs"] = [draw(st.sampled_from(["log", "log-input"]))]
+            rec["lf"] = True
     return {"top": top, "bottom": bottom, "platform": platform}
 
 
